@@ -23,7 +23,16 @@ ASSUMPTIONS = ["CPython re / int() / float() / str methods / text decoding / uni
 FLOAT_SPELL = ["{i}", "{i}.", "{i}.{f}", ".{f}", "{i}e{e}", "{i}.{f}E-{e}", "+{i}.{f}", "-{i}.{f}", "-{i}", "{i}.{f}e+{e}", "0{i}.{f}0"]
 
 
+LONG_SPELL = ["0.30000000000000004", "73357.736589430185", "6.42306e-20", "1.7976931348623157e308", "5e-324", "3.14159265358979323846264338327950288",
+              "0.1000000000000000055511151231257827", "9007199254740993", "1.00000000000000011102230246251565", "123456789.123456789e-5", "2.2250738585072011e-308",
+              "8.5e-1", "4.35", "0.000001", "1e23", "17.299999999999997", "-0.7000000000000001"]
+
+
 def spell_float(rng):
+    if rng.random() < 0.12:
+        # every float spelling the line grammar admits, incl. more digits than a double holds: the value is the correctly rounded double
+        s = rng.choice(LONG_SPELL) if rng.random() < 0.6 else f"{rng.randint(0, 99999)}.{rng.randint(0, 10**17):017d}"
+        return s, float(s)
     s = rng.choice(FLOAT_SPELL).format(i=rng.randint(0, 999), f=rng.choice(["5", "25", "125", "0", "75", "0625"]), e=rng.randint(0, 3))
     return s, float(s)
 
